@@ -30,10 +30,28 @@ def _worker_init(build_dir, kind):
     rt.init(build_dir, kind)
 
 
+class WorkerError(object):
+    """An exception escaped a worker function (never raised across the pool)."""
+
+    def __init__(self, desc, kind):
+        self.desc = desc
+        self.kind = kind
+
+
 def _call(args):
     modname, fname, item = args
-    mod = importlib.import_module(modname)
-    return getattr(mod, fname)(item)
+    try:
+        mod = importlib.import_module(modname)
+        return getattr(mod, fname)(item)
+    except BaseException as e:  # noqa
+        from . import rt
+
+        try:
+            kind = rt.classify(e)
+            desc = rt.describe(e)
+        except Exception:
+            kind, desc = "crash", repr(e)
+        return WorkerError(desc + " | " + "".join(traceback.format_tb(e.__traceback__)[-3:])[-600:], kind)
 
 
 class Ctx(object):
@@ -43,6 +61,14 @@ class Ctx(object):
         self.seed = seed
         self.jobs = jobs
         self.t0 = time.time()
+        # replay files of earlier runs of this property are stale by definition
+        import glob
+
+        for f in glob.glob(os.path.join(REPLAYS, "%s-*.json" % prop)):
+            try:
+                os.remove(f)
+            except OSError:
+                pass
         self._builds = {}
         self._pools = {}
         self.cov = {"states": 0, "transitions": 0, "traces_validated_against_impl": 0, "evaluations": 0, "refused": 0}
@@ -79,10 +105,24 @@ class Ctx(object):
         pool = self.pool(kind)
         return pool.imap(_call, [(modname, fname, it) for it in items], chunksize)
 
+    def run(self, kind, modname, fname, items, chunksize=1):
+        """Yields (item, result).  An exception escaping the worker function is not a harness
+        error: on the unchanged tree it never happens, so it is reported as a violation
+        (the code under test made the driver fail) and the item is skipped."""
+        items = list(items)
+        for it, res in zip(items, self.map(kind, modname, fname, items, chunksize)):
+            if isinstance(res, WorkerError):
+                self.add(transitions=1)
+                self.violation({"rule": "driver_exception", "build": kind, "expected": "the driver can execute this case on the real code", "observed": res.desc, "case": {"fn": "%s.%s" % (modname, fname), "item": it}})
+                continue
+            yield it, res
+
     def close(self):
         for p in self._pools.values():
-            p.terminate()
-            p.join()
+            try:
+                p.terminate()
+            except Exception:
+                pass
         self._pools = {}
 
     # ---- coverage ---------------------------------------------------------
@@ -112,6 +152,12 @@ class Ctx(object):
         self.close()
         os.makedirs(EVIDENCE, exist_ok=True)
         unknown = []
+        dump = os.environ.get("BTMC_DUMP_SIGS")  # authoring-time helper (tools/gen_*_witnesses.py)
+        if dump:
+            with open(dump, "a") as f:
+                for v in self.raw_violations:
+                    if v.get("sig"):
+                        f.write(str(v["sig"]) + "\n")
         for v in self.raw_violations:
             fid = findings.match(v)
             if fid is not None:
@@ -224,6 +270,16 @@ def main(argv=None):
         env["MKL_NUM_THREADS"] = "1"
         os.execve(build.PY, [build.PY, "-m", "btmc.check"] + (argv if argv is not None else sys.argv[1:]), env)
     build.install_signal_handlers()
+    import signal
+
+    def _watchdog(signum, frame):
+        print("HARNESS-ERROR property=%s wall-clock watchdog fired" % a.prop.upper())
+        sys.stdout.flush()
+        build._cleanup()
+        os._exit(2)
+
+    signal.signal(signal.SIGALRM, _watchdog)
+    signal.alarm(int(os.environ.get("BTMC_WATCHDOG_S", "1500" if a.tier == "quick" else "28000")))
     prop = a.prop.upper()
     jobs = a.jobs or min(16, os.cpu_count() or 4)
     ctx = Ctx(prop, a.tier, a.seed, jobs)
